@@ -1425,3 +1425,32 @@ Example stream_post_example :
   stream_post 1 (Notif 2 (Some (GPath "t1" "o" [] [])) [] [GPath "" "" [] []] false) = Ok false /\
   stream_post 0 (Notif 2 (Some (GPath "t1" "" [] [])) [] [GPath "" "" [("*", [])] []] false) = Ok true.
 Proof. repeat split. Qed.
+
+(** * The event-driven suppression step is total over every pair of value encodings
+
+    [gnmiUpdate] compares the stored first update with the new one through
+    value.Equal on their [Val] fields only; whether either side (or both, or
+    neither) also carries the deprecated [Update.value] is not looked at.  So
+    for every stored / new update -- typed value, deprecated value only,
+    neither, both -- the step returns a verdict. *)
+Lemma suppression_step_total_lemma (old new : upd) w :
+  wire_upd old = true -> wire_upd new = true ->
+  equal_gen false (u_val old) (u_val new) <> Panic w.
+Proof.
+  intros Ho Hn He. destruct (equal_gen_panic_inv false _ _ _ Ho Hn He) as [H _]. discriminate H.
+Qed.
+
+(** the four encodings of one leaf, in every order, on the current code *)
+Definition enc_typed : upd := UpdD wit_ab (TVInt 1) None.
+Definition enc_deprecated : upd := UpdD wit_ab TVnil (Some (0%N, "{}")).
+Definition enc_neither : upd := UpdD wit_ab TVnil None.
+Definition enc_both : upd := UpdD wit_ab (TVInt 1) (Some (1%N, "ab")).
+Definition enc_all := [enc_typed; enc_deprecated; enc_neither; enc_both].
+
+Example suppression_pairs_example :
+  forallb (fun a => forallb (fun b =>
+    match snd (ingest cur_flags
+                 (fst (ingest cur_flags wit_c0 (Notif 1 wit_t1 [a] [] false)))
+                 (Notif 2 wit_t1 [b] [] false)) with
+    | GOk => true | _ => false end) enc_all) enc_all = true.
+Proof. vm_compute. reflexivity. Qed.
